@@ -439,6 +439,12 @@ func (u *Unit) fromScalar(st *State, term string, t types.Type) *Val {
 		v.Len = app(u.slLen(), term)
 		v.Nil = app(u.slNil(), term)
 		v.S = ""
+		if at, isArr := types.Unalias(t).Underlying().(*types.Array); isArr {
+			// a Go array has its declared length and is never nil
+			v.Len = intLit(at.Len())
+			v.Nil = "false"
+			return v
+		}
 		st.assumeFact(app(">=", v.Len, "0"))
 		st.assumeFact(tImp(v.Nil, tEq(v.Len, "0")))
 	case kInt, kUint, kAtomic, kRef:
